@@ -488,26 +488,30 @@ Fixpoint lam_params2 (ps : list (string * pkind * option (list item))) (pos_only
           ++ lam_params2 rest po1 ko1
   end.
 
-(* _precedence(element): the level of the form an element is printed in (everything else is an atom or has delimiters) *)
+(* _precedence(element): the level of the form an element is printed in.  Every number below is a constant regenerated
+   from expressions.py (Gen/C03_tables.v: the table _binary_op_precedence and the branches of _precedence) *)
+Fixpoint lookup_prec (op : string) (tbl : list (string * nat)) : option nat :=
+  match tbl with
+  | [] => None
+  | (k, v) :: r => if String.eqb op k then Some v else lookup_prec op r
+  end.
 Definition gbinop_prec (op : string) : nat :=
-  if String.eqb op "|" then 9 else if String.eqb op "^" then 10 else if String.eqb op "&" then 11
-  else if String.eqb op "<<" || String.eqb op ">>" then 12
-  else if String.eqb op "+" || String.eqb op "-" then 13
-  else if String.eqb op "*" || String.eqb op "@" || String.eqb op "/" || String.eqb op "%" || String.eqb op "//" then 14
-  else if String.eqb op "**" then P_POWER else P_ATOM.
+  match lookup_prec op gen_binop_prec with Some n => n | None => pr_binop_default end.
 Definition gprec (g : gexpr) : nat :=
   match g with
   | GBinOp _ op _ => gbinop_prec op
-  | GBoolOp op _ => if String.eqb op "or" then P_OR else P_AND
-  | GUnaryOp op _ => if String.eqb op "not " then P_NOT else P_FACTOR
-  | GCompare _ _ _ => P_CMP
-  | GIfExp _ _ _ | GLambda _ _ => P_TEST
-  | GYield _ | GYieldFrom _ => P_YIELD
-  | _ => P_ATOM
+  | GBoolOp op _ => if String.eqb op pr_BoolOp_if_operator then pr_BoolOp_if else pr_BoolOp_else
+  | GUnaryOp op _ => if String.eqb op pr_UnaryOp_if_operator then pr_UnaryOp_if else pr_UnaryOp_else
+  | GCompare _ _ _ => pr_Compare
+  | GIfExp _ _ _ => pr_IfExp
+  | GLambda _ _ => pr_Lambda
+  | GYield _ => pr_Yield
+  | GYieldFrom _ => pr_YieldFrom
+  | _ => pr_default
   end.
-(* ExprBinOp.iterate: what it requires of its operands *)
-Definition gbin_lreq (op : string) : nat := if String.eqb op "**" then P_AWAIT else gbinop_prec op.
-Definition gbin_rreq (op : string) : nat := if String.eqb op "**" then P_FACTOR else Nat.min (S (gbinop_prec op)) P_ATOM.
+(* ExprBinOp.iterate: own level on the left, own level + 1 (capped) on the right; two fixed levels for the power operator *)
+Definition gbin_lreq (op : string) : nat := if String.eqb op "**" then rq_BinOp_pow_left else gbinop_prec op.
+Definition gbin_rreq (op : string) : nat := if String.eqb op "**" then rq_BinOp_pow_right else Nat.min (S (gbinop_prec op)) P_ATOM.
 
 Definition wrap (b : bool) (l : list item) : list item := if b then IStr "(" :: l ++ [IStr ")"] else l.
 
@@ -527,18 +531,18 @@ Definition is_genexp (g : gexpr) : bool := match g with GGeneratorExp _ _ => tru
 (* node shapes whose layout depends on the first / only child; y = _yield(_, flat, precedence) of the caller *)
 Definition attr_parts_gen (intattr : bool) (y : nat -> gexpr -> list item) (vs : list gexpr) : list (list item) :=
   match vs with
-  | GStr s :: rest => (if intattr && is_decimal s then [IStr "("; IStr s; IStr ")"] else [IStr s]) :: map (y P_ATOM) rest
-  | _ => map (y P_ATOM) vs
+  | GStr s :: rest => (if intattr && is_decimal s then [IStr "("; IStr s; IStr ")"] else [IStr s]) :: map (y rq_Attribute_values) rest
+  | _ => map (y rq_Attribute_values) vs
   end.
 Definition call_args_gen (genexp : bool) (y : nat -> gexpr -> list item) (args : list gexpr) : list item :=
   match args with
-  | [GGeneratorExp _ _ as a] => if genexp then y P_NONE a else [IStr "("] ++ y P_TEST a ++ [IStr ")"]
-  | _ => [IStr "("] ++ ijoin [IStr ", "] (map (y P_TEST) args) ++ [IStr ")"]
+  | [GGeneratorExp _ _ as a] => if genexp then y rq_Call_sole_genexp a else [IStr "("] ++ y rq_Call_arguments a ++ [IStr ")"]
+  | _ => [IStr "("] ++ ijoin [IStr ", "] (map (y rq_Call_arguments) args) ++ [IStr ")"]
   end.
 Definition spec_items_gen (y : nat -> gexpr -> list item) (spec : option gexpr) : list item :=
   match spec with
-  | Some (GJoinedStr vs) => IStr ":" :: ijoin [IStr ""] (map (y P_NONE) vs)
-  | Some o => IStr ":" :: y P_NONE o
+  | Some (GJoinedStr vs) => IStr ":" :: ijoin [IStr ""] (map (y rq_Formatted_spec_values) vs)
+  | Some o => IStr ":" :: y rq_Formatted_spec o
   | None => []
   end.
 
@@ -556,60 +560,76 @@ Fixpoint iterate (flat : bool) (g : gexpr) {struct g} : list item :=
   | GAttribute vs =>
       ijoin [IStr "."] (attr_parts_gen (fx_intattr fx) y vs)
   | GBinOp l op r => y (gbin_lreq op) l ++ [IStr (" " ++ op ++ " ")] ++ y (gbin_rreq op) r
-  | GBoolOp op vs => ijoin [IStr (" " ++ op ++ " ")] (map (y (S (gprec g))) vs)
+  | GBoolOp op vs => ijoin [IStr (" " ++ op ++ " ")] (map (y (rq_BoolOp_values_above_own + gprec g)) vs)
   | GCall f args =>
-      y P_ATOM f ++ call_args_gen (fx_genexp fx) y args
-  | GCompare l ops cs => y P_BOR l ++ [IStr " "] ++ ijoin [IStr " "] (cmp_zip ops (map (y P_BOR) cs))
+      y rq_Call_function f ++ call_args_gen (fx_genexp fx) y args
+  | GCompare l ops cs => y rq_Compare_left l ++ [IStr " "] ++ ijoin [IStr " "] (cmp_zip ops (map (y rq_Compare_comparators) cs))
   | GComprehension t it conds a =>
-      (if a then [IStr "async "] else []) ++ [IStr "for "] ++ y P_BOR t ++ [IStr " in "] ++ y P_OR it
-      ++ (if is_nil conds then [] else IStr " if " :: ijoin [IStr " if "] (map (y P_OR) conds))
+      (if a then [IStr "async "] else []) ++ [IStr "for "] ++ y rq_Comprehension_target t ++ [IStr " in "] ++ y rq_Comprehension_iterable it
+      ++ (if is_nil conds then [] else IStr " if " :: ijoin [IStr " if "] (map (y rq_Comprehension_conditions) conds))
   | GDict items =>
       [IStr "{"] ++ ijoin [IStr ", "]
         (map (fun kv => match fst kv with
-                        | None => [IStr "**"] ++ y P_BOR (snd kv)
-                        | Some k => y P_TEST k ++ [IStr ": "] ++ y P_TEST (snd kv)
+                        | None => [IStr "**"] ++ y rq_Dict_unpacked (snd kv)
+                        | Some k => y rq_Dict_key k ++ [IStr ": "] ++ y rq_Dict_value (snd kv)
                         end) items)
       ++ [IStr "}"]
   | GDictComp k v gens =>
-      [IStr "{"] ++ y P_TEST k ++ [IStr ": "] ++ y P_TEST v ++ [IStr " "] ++ ijoin [IStr " "] (map (y P_NONE) gens) ++ [IStr "}"]
+      [IStr "{"] ++ y rq_DictComp_key k ++ [IStr ": "] ++ y rq_DictComp_value v ++ [IStr " "] ++ ijoin [IStr " "] (map (y rq_DictComp_generators) gens) ++ [IStr "}"]
   | GFormatted v conv spec =>
       [IStr "{"]
       ++ (if fx_fglue fx && (P_OR <=? gprec v) && starts_brace (render_items (match v with GStr s => [IStr s] | _ => iterate true v end))
           then [IStr " "] else [])
-      ++ y P_OR v
+      ++ y rq_Formatted_value v
       ++ (if (conv =? -1)%Z then [] else [IStr (conv_text conv)])
       ++ spec_items_gen y spec
       ++ [IStr "}"]
   | GGeneratorExp e gens =>
-      wrap (fx_genexp fx) (y P_TEST e ++ [IStr " "] ++ ijoin [IStr " "] (map (y P_NONE) gens))
-  | GIfExp b t o => y P_OR b ++ [IStr " if "] ++ y P_OR t ++ [IStr " else "] ++ y P_TEST o
-  | GJoinedStr vs => [IStr "f'"] ++ ijoin [IStr ""] (map (y P_NONE) vs) ++ [IStr "'"]
-  | GKeyword n v => [IStr n; IStr "="] ++ y P_TEST v
-  | GVarPositional v => IStr "*" :: y P_BOR v
-  | GVarKeyword v => IStr "**" :: y P_TEST v
+      wrap (fx_genexp fx) (y rq_GeneratorExp_element e ++ [IStr " "] ++ ijoin [IStr " "] (map (y rq_GeneratorExp_generators) gens))
+  | GIfExp b t o => y rq_IfExp_body b ++ [IStr " if "] ++ y rq_IfExp_test t ++ [IStr " else "] ++ y rq_IfExp_orelse o
+  | GJoinedStr vs => [IStr "f'"] ++ ijoin [IStr ""] (map (y rq_JoinedStr_values) vs) ++ [IStr "'"]
+  | GKeyword n v => [IStr n; IStr "="] ++ y rq_Keyword_value v
+  | GVarPositional v => IStr "*" :: y rq_VarPositional_value v
+  | GVarKeyword v => IStr "**" :: y rq_VarKeyword_value v
   | GLambda params body =>
-      let ps := map (fun p => (fst (fst p), snd (fst p), match snd p with Some d => Some (y P_TEST d) | None => None end)) params in
+      let ps := map (fun p => (fst (fst p), snd (fst p), match snd p with Some d => Some (y rq_Lambda_default d) | None => None end)) params in
       [IStr "lambda"] ++ (if is_nil params then [] else [IStr " "])
       ++ (if fx_lambda fx then lam_params2 ps false false else lam_params ps false false false)
-      ++ [IStr ": "] ++ y P_TEST body
-  | GList es => [IStr "["] ++ ijoin [IStr ", "] (map (y P_TEST) es) ++ [IStr "]"]
-  | GListComp e gens => [IStr "["] ++ y P_TEST e ++ [IStr " "] ++ ijoin [IStr " "] (map (y P_NONE) gens) ++ [IStr "]"]
-  | GNamedExpr t v => [IStr "("] ++ y P_ATOM t ++ [IStr " := "] ++ y P_TEST v ++ [IStr ")"]
-  | GSet es => [IStr "{"] ++ ijoin [IStr ", "] (map (y P_TEST) es) ++ [IStr "}"]
-  | GSetComp e gens => [IStr "{"] ++ y P_TEST e ++ [IStr " "] ++ ijoin [IStr " "] (map (y P_NONE) gens) ++ [IStr "}"]
+      ++ [IStr ": "] ++ y rq_Lambda_body body
+  | GList es => [IStr "["] ++ ijoin [IStr ", "] (map (y rq_List_elements) es) ++ [IStr "]"]
+  | GListComp e gens => [IStr "["] ++ y rq_ListComp_element e ++ [IStr " "] ++ ijoin [IStr " "] (map (y rq_ListComp_generators) gens) ++ [IStr "]"]
+  | GNamedExpr t v => [IStr "("] ++ y rq_NamedExpr_target t ++ [IStr " := "] ++ y rq_NamedExpr_value v ++ [IStr ")"]
+  | GSet es => [IStr "{"] ++ ijoin [IStr ", "] (map (y rq_Set_elements) es) ++ [IStr "}"]
+  | GSetComp e gens => [IStr "{"] ++ y rq_SetComp_element e ++ [IStr " "] ++ ijoin [IStr " "] (map (y rq_SetComp_generators) gens) ++ [IStr "}"]
   | GSlice lo up st =>
-      yo P_TEST lo ++ [IStr ":"] ++ yo P_TEST up ++ (match st with Some s => IStr ":" :: y P_TEST s | None => [] end)
-  | GSubscript l s => y P_ATOM l ++ [IStr "["] ++ y P_TEST s ++ [IStr "]"]
+      yo rq_Slice_lower lo ++ [IStr ":"] ++ yo rq_Slice_upper up ++ (match st with Some s => IStr ":" :: y rq_Slice_step s | None => [] end)
+  | GSubscript l s => y rq_Subscript_left l ++ [IStr "["] ++ y rq_Subscript_slice s ++ [IStr "]"]
   | GTuple es implicit =>
       let par := if fx_tuple0 fx then negb implicit || is_nil es else negb implicit in
-      (if par then [IStr "("] else []) ++ ijoin [IStr ", "] (map (y P_TEST) es)
+      (if par then [IStr "("] else []) ++ ijoin [IStr ", "] (map (y rq_Tuple_elements) es)
       ++ (match es with [_] => [IStr ","] | _ => [] end) ++ (if par then [IStr ")"] else [])
-  | GUnaryOp op v => IStr op :: y (gprec g) v
-  | GYield v => IStr "yield" :: (match v with Some c => IStr " " :: y P_TEST c | None => [] end)
-  | GYieldFrom v => IStr "yield from " :: y P_TEST v
+  | GUnaryOp op v => IStr op :: y (rq_UnaryOp_value_above_own + gprec g) v
+  | GYield v => IStr "yield" :: (match v with Some c => IStr " " :: y rq_Yield_value c | None => [] end)
+  | GYieldFrom v => IStr "yield from " :: y rq_YieldFrom_value v
   end.
 
 (* Expr.__str__: "".join(elem if isinstance(elem, str) else elem.name for elem in self.iterate(flat=True)) *)
 Definition render (g : gexpr) : string := render_items (iterate true g).
 
+(* what a renderer does with iter(expr): take one layer, keep strings and names, descend into every other sub-expression.
+   n = fuel; out of fuel the sub-expression is left as it is (an item that is not a piece) *)
+Fixpoint rwalk (n : nat) (g : gexpr) {struct n} : list item :=
+  match n with
+  | 0 => [IExpr g]
+  | S n' =>
+      flat_map (fun i => match i with
+                         | IStr s => [IStr s]
+                         | IExpr (GName _ _ as c) => [IExpr c]
+                         | IExpr c => rwalk n' c
+                         end) (iterate false g)
+  end.
+
 End WithFixes.
+
+(* strings and names only: the walk above came to its end *)
+Definition is_pieceb (i : item) : bool := match i with IStr _ => true | IExpr (GName _ _) => true | IExpr _ => false end.
